@@ -5,6 +5,6 @@ D=$(mktemp -d /tmp/repro.XXXX)
 trap "rm -rf $D" EXIT
 cd $D
 cp /verif/findings/repro/go.mod.txt go.mod; cp /repo/go.sum .
-for f in f1_stop_start f2_runtime_reset f3_restart_while_down f4_follow_resume; do cp /verif/findings/repro/${f}_test.go.txt ${f}_test.go; done
+for f in f1_stop_start f2_runtime_reset f3_restart_while_down f4_follow_resume f8_half_init; do cp /verif/findings/repro/${f}_test.go.txt ${f}_test.go; done
 export GOFLAGS=-mod=mod GOPROXY=off
 go test -count=1 $2 -run "$1" -v . 2>&1 | grep -E "^(=== RUN|--- |FAIL|ok|PASS|panic)|_test.go:[0-9]+:" | head -40
